@@ -51,7 +51,7 @@ def run(ctx):
         bad = []
         for k in range(ncase):
             nm = b"x%d" % k
-            spec = nc.gen_nasty_tree(rng, max_nodes=7, max_depth=2)
+            spec = nc.gen_nasty_tree(rng, max_nodes=7, max_depth=2, non_utf8=True)
             forest.add(nm, spec)
             execdir = rng.random() < 0.5
             root = nc.spelled(rng, forest.dir, nm, rng.choice(["{r}", "./{r}", "{r}/", "{abs}"]))
@@ -83,6 +83,15 @@ def run(ctx):
             exp_printed = visits if status == "0" else []
             ctx.count((nm, root, tuple(tmpls), execdir, status, ctx.seed), any(b"{}" in t for t in tmpls),
                       ["execdir=%d" % execdir, "status=" + status, "templates=%d" % len(tmpls)])
+            def valid_utf8(b):
+                try:
+                    b.decode("utf-8")
+                    return True
+                except UnicodeDecodeError:
+                    return False
+            if not all(valid_utf8(v) for v in visits):
+                # -print0 renders names that are not UTF-8 lossily (outside C07's domain): compare the number of entries printed only
+                printed, exp_printed = len(printed), len(exp_printed)
             if got_n != exp or printed != exp_printed or p.returncode != 0:
                 bad.append((args, got_n, exp, printed, exp_printed, p.returncode, spec))
         # a command that cannot be found: the action is false, find's status is unaffected
@@ -93,6 +102,8 @@ def run(ctx):
             bad.append((["-exec /nonexistent/cmd"], p.stdout, b"", [], [], p.returncode, ("f", 0)))
         for args, got_n, exp, printed, exp_printed, rc, spec in bad[:2]:
             first = next(((a, b) for a, b in zip(list(got_n) + [None], list(exp) + [None]) if a != b), None) if isinstance(got_n, list) else None
+            if isinstance(printed, int):
+                printed, exp_printed = [b"%d entries" % printed], [b"%d entries" % exp_printed]
             ctx.violation("%s: exit %s; first differing invocation (got, expected): %r; printed %r expected %r" % (args[1:], rc, first, printed[:4], exp_printed[:4]),
                           {"property": "C09", "kind": "end-to-end", "command": args[1:], "tree": wc.spec_json(spec), "exit": rc,
                            "invocations": [[c.decode("utf-8", "replace"), [fw.hexs(x) for x in a]] for c, a in got_n] if isinstance(got_n, list) else None,
